@@ -161,6 +161,23 @@ def rule_header(facts):
                                     th = tmh.of_rvalue(s.rv, 0)
                                     if pat.has_call(th, "read_u64") and pat.has_const(th, 0xFFFF_FFFF_FFFF_FFFF):
                                         okk = True
+            if not okk:
+                # any comparison on the field (==, !=, a named bool, then_some ..) that singles out the all-ones value
+                cands = [t for (_, t, _, _) in gs]
+                for blk in b.blocks:
+                    for s in blk.stmts:
+                        if s.k == "assign" and s.rv.k == "binop" and s.rv.binop in ("Eq", "Ne", "Lt", "Le", "Gt", "Ge"):
+                            cands.append(tm.of_rvalue(s.rv, 0))
+                for t in cands:
+                    if not (pat.cmp_sides(t) and pat.has_call(t, "read_u64")):
+                        continue
+                    try:
+                        tv = [bool(pat.eval_cmp(t, lambda q, v=v: v if pat.has_call(q, "read_u64") else (_ for _ in ()).throw(pat.NotEvaluable(q))))
+                              for v in (0, 1, 0xFFFF_FFFF, 0xFFFF_FFFF_FFFF_FFFE, 0xFFFF_FFFF_FFFF_FFFF)]
+                    except (pat.NotEvaluable, pat.Overflow):
+                        continue
+                    if tv in ([False] * 4 + [True], [True] * 4 + [False]):
+                        okk = True
             if okk:
                 r2.ok("term", {"unknown-size test": "== 0xFFFF_FFFF_FFFF_FFFF"})
             else:
@@ -220,7 +237,9 @@ def rule_size_writers(facts, rid="C08.R2b"):
     from rules.C07 import check_side
     r = report.RuleResult(rid, "the size in effect is written only by the header parser, the constructors and set_unpacked_size")
     for adt, only in (("decode::lzma::LzmaParams", ["LzmaParams::read_header", "LzmaParams::new"]),
-                      ("decode::lzma::DecoderState", ["DecoderState::new", "DecoderState::set_unpacked_size"])):
+                      # (the two callers of the setter may as well store the field directly: same effect)
+                      ("decode::lzma::DecoderState", ["DecoderState::new", "DecoderState::set_unpacked_size", "LzmaDecoder::reset",
+                                                      "Lzma2Decoder::parse_lzma"])):
         r.sites += 1
         sc = {"kind": "writers", "adt": adt, "field": "unpacked_size", "only_in": only}
         if check_side(facts, sc):
